@@ -414,6 +414,7 @@ fn main() {
         "open_wait_blocked_by_stream_limit",
         "datagrams_all_received",
         "close_point_hit",
+        "read_to_end_after_a_prefix",
     ] {
         report.must_reach(k);
         must.push(k.to_string());
